@@ -4,7 +4,7 @@ from props import stacklib as L
 
 ID = "C12"
 COQ_PROPS = "Props/C12.v"
-THEOREMS = ["C12_history", "C12_fresh", "C12_no_ties", "C12_files"]
+THEOREMS = ["C12_history", "C12_fresh", "C12_no_ties", "C12_files", "C12_dtype"]
 ALLOWED_AXIOMS = []
 RULE = ("synthetic in-memory DICOM series (grids S<=4 x T<=3 x V<=3, 7 orientations x 2 slice directions, explicit or "
         "guessed ordering keys, complete or with a dropped / duplicated / misfiled / pixel-less file or an irregular gap) "
